@@ -7,6 +7,7 @@ package main
 // specification (Trace_Mash.tla), never here.
 
 import (
+	"os"
 	"bytes"
 	"math"
 	"sort"
@@ -230,13 +231,19 @@ func mashDrive(args []string) error {
 			if sid%7 == 4 || sid%7 == 1 { // k-mers longer than a machine word's worth of bases, longer than conventional gap runs
 				k = []int{33, 101, 64, 120, 150}[(sid/7+r.Intn(2))%5]
 			}
+			hugeBase := 0
 			huge := big && (sid == 8 || sid == 9) // one sequence of more than 2^20 bases, a few bases (fewer than k) beyond the multiple
 			nseq := 1 + r.Intn(4)
 			var seqs [][]byte
 			if huge {
 				k = []int{21, 31}[sid%2]
 				nseq = 0
-				seqs = append(seqs, randSeq(1<<20+1+r.Intn(k-1)))
+				base := 1 << 20
+				if v, err := strconv.Atoi(os.Getenv("VERIF_MASH_HUGE")); err == nil && v > 0 { // (for measuring the cost of this family)
+					base = v
+				}
+				hugeBase = base
+				seqs = append(seqs, randSeq(base+1+r.Intn(k-1)))
 			}
 			for i := 0; i < nseq; i++ {
 				ln := r.Intn(70)
@@ -274,10 +281,10 @@ func mashDrive(args []string) error {
 				n = 600 + r.Intn(600)
 			}
 			if huge {
-				n = 1<<20 + 64 // every distinct canonical k-mer is in the sketch
+				n = hugeBase + 64 // every distinct canonical k-mer is in the sketch
 				sketch(n, k, seqs, true, "reference")
 				sketch(n, k, [][]byte{revComp(seqs[0])}, true, "revcomp")
-				cut := 1<<19 + r.Intn(1000)
+				cut := hugeBase/2 + r.Intn(1000)
 				sketch(n, k, [][]byte{seqs[0][cut-k+1:], seqs[0][:cut]}, true, "two overlapping parts")
 				break
 			}
